@@ -518,9 +518,11 @@ impl Python {
                             .join("\n"),
                     )
                 } else {
+                    // A doc string can span several lines: each line needs its own `#`.
                     comments
                         .iter()
-                        .map(|v| format!("{}# {}", indent, v))
+                        .flat_map(|v| v.split('\n'))
+                        .map(|v| format!("{}# {}", indent, v.trim_end_matches('\r')))
                         .collect::<Vec<String>>()
                         .join("\n")
                 }
